@@ -44,11 +44,8 @@ def ofTrace (t : Trace) : Sexp :=
   .list [ofOpt ofBool t.ff0, ofList ofBool t.leafFF, ofList ofObs t.obs, ofList (ofList ofOut) t.texts,
          ofOpt (ofPair ofNat (ofList ofOut)) t.exit]
 
-def classes (i : Input) : List String :=
-  if Spec.C04.multiNoShouldStop i then ["multiNoShouldStop"] else []
-
 def drv : PropDrv Input Trace :=
-  { decI := input?, decT := trace?, encT := ofTrace, model := model, clauses := Spec.C04.clauses, classes := classes }
+  { decI := input?, decT := trace?, encT := ofTrace, model := model, clauses := Spec.C04.clauses }
 
 def handle : List Sexp → Sexp := drv.handle
 end TTV.Drv.C04
